@@ -117,7 +117,7 @@ def dec_model_res(line):
     return ("ok", (dec_ty(x[1][0]), dec_dv(x[1][1])))
 
 
-def impl_infer(headers):
+def impl_infer(headers, name="sheet"):
     """('ok', (ty, dv)) / ('err', kind) / ('oou', what) under CLI semantics.
     'oou' = the call met a type outside the universe of the mirror: in its result, or as the
     annotation of a column whose type model_from_headers_rec then discards (only the last entry
@@ -139,7 +139,7 @@ def impl_infer(headers):
     try:
         with warnings.catch_warnings():
             warnings.simplefilter("ignore")
-            r = run_cli_mode(mi.model_from_headers_rec, "sheet", list(headers))
+            r = run_cli_mode(mi.model_from_headers_rec, name, list(headers))
     finally:
         mi.type_from_string = orig
     if r[0] != "ok":
@@ -316,7 +316,8 @@ NAMES = ["a", "b", "c", "f", "x", "y", "ID2", "id", "name", "my field", "Größe
          "x y z", "é", "q2", "名", "A", "value", "t 1", "k+", "(p)", "a,b", "a;b", "1_", "0x1", "1e3", "-", "lst",
          "custom_field", "row", "2nd", "+", "tr ue", "int", "str", "List[int]", "9z"]
 PADS = ["", "", "", "", " ", "  ", "\t", " ", "　 "]
-STR_DEFAULTS = ["v", "hello world", "a=b", "1", "True", "", "é ü", "a;b|c", "-", "false", "x = y", "=", "[1]", "5"]
+STR_DEFAULTS = ["v", "hello world", "a=b", "1", "True", "", "é ü", "a;b|c", "-", "false", "x = y", "=", "[1]", "5",
+                "V", "Hello World", "true", "É Ü", "01"]     # pairs that a normalised (lower / int) cache key would merge
 STR_DEFAULTS_COLON = ["x:y", ":", "http://h/p", "a: b"]
 DOT_STR_DEFAULTS = ["1.5", "a.b", "e.g.", ".", "www.example.org"]
 FLOAT_DEFAULTS = ["2", "-3", "1e3", "1E-2", "inf", "-inf", "nan", "1_0", "+7", "0", "12e+2", "Infinity", "NaN"]
@@ -823,6 +824,20 @@ def run(ctx):
     def ask(fn, arg):
         return m.ask(f"({ENG} {fn} {arg})")
 
+    seen_keys = {}
+
+    def report(key, summary, rep):
+        """v.failing_input, after checking (first two per class, not for known findings) that the single-case replay fails in
+        a NEW interpreter: when it does not, the failure needs what this process did before (a cache on a class or a module)
+        and the summary says so; the history streams (c18_hist) then give a replay that carries the history"""
+        seen_keys[key] = seen_keys.get(key, 0) + 1
+        if seen_keys[key] <= 2 and not any(k.get("key") == key for k in v.known):
+            import c18_hist
+            if not c18_hist.reproduces_in_fresh_process(rep):
+                summary = ("[this single case holds in a fresh interpreter: the failure depends on what the process did before; "
+                           "see the history-dependent-* violations for a replay with the history] " + summary)
+        return v.failing_input(key, summary, rep)
+
     # which of the two mirrored behaviours does this tree have?  (the regenerated constant
     # inf_nested_by_field_name of the model vs an independent probe of the implementation)
     by_name = probe_by_field_name()
@@ -859,7 +874,7 @@ def run(ctx):
             dist["dot_default"] += 1
             ok, det = oracle_infer_headers(schema)
             if not ok:
-                v.failing_input("default-contains-dot",
+                report("default-contains-dot",
                                 f"headers {det['headers']!r}: inferred {det['inferred']} but the schema denotes {det['denoted']}",
                                 dict(fn="infer_headers", schema=schema))
             if m:
@@ -884,7 +899,7 @@ def run(ctx):
         if not dotted:
             ok, det = oracle_infer_headers(schema)
             if not ok:
-                v.failing_input("inferred-model-differs",
+                report("inferred-model-differs",
                                 f"headers {det['headers']!r}: inferred {det['inferred']} but the schema denotes {det['denoted']}",
                                 dict(fn="infer_headers", schema=schema))
         io_ = impl_infer(hs)
@@ -916,14 +931,14 @@ def run(ctx):
                 ctx.disagree("stable_partition (Coq) vs harness", repr(hs), repr(mp), repr(part))
         if part != hs:
             if impl_infer(part) != io_:
-                v.failing_input("partition-changes-model", f"{hs!r} vs {part!r}", dict(fn="partition", headers=hs))
+                report("partition-changes-model", f"{hs!r} vs {part!r}", dict(fn="partition", headers=hs))
             stats["partition_cases"] = stats.get("partition_cases", 0) + 1
         if hom and len(hs) > 1:
             perm = list(hs)
             rng.shuffle(perm)
             a = impl_infer(perm)
             if sort_fields(a) != sort_fields(io_):
-                v.failing_input("permutation-changes-model", f"{hs!r} vs {perm!r}", dict(fn="permutation", headers=hs, perm=perm))
+                report("permutation-changes-model", f"{hs!r} vs {perm!r}", dict(fn="permutation", headers=hs, perm=perm))
             stats["permutation_cases"] = stats.get("permutation_cases", 0) + 1
             if m:
                 mo2 = dec_model_res(ask(1, enc_headers(perm)))
@@ -939,7 +954,7 @@ def run(ctx):
                 dist["rows"] += len(rows)
                 ok, det = parses_same(schema, hs, rows, dist)
                 if not ok:
-                    v.failing_input("row-parses-differently",
+                    report("row-parses-differently",
                                     f"headers {hs!r} row {det['row']!r}: inferred {det['inferred']} explicit {det['explicit']}",
                                     dict(fn="parses_same", schema=schema, rows=[det["row"]]))
                 # content independence + the real fallback, on a sub-sample
@@ -948,7 +963,7 @@ def run(ctx):
                     rows2 = [gen_row(rng, schema, hs) for _ in range(2)]
                     ok, det = oracle_content_independent(schema, hs, [rows, rows2, []])
                     if not ok:
-                        v.failing_input(det["kind"], f"through the content index: {det}",
+                        report(det["kind"], f"through the content index: {det}",
                                         dict(fn="content_independent", schema=schema, rowsets=[rows, rows2, []]))
     stats["schemas"] = dist
     stats["schema_features"] = feats
@@ -1065,6 +1080,11 @@ def run(ctx):
             compare_infer(ctx, t, mo, io_, what="type_from_string")
     stats["unit"] = ud
 
+    # -------------------------------------------------- 4. histories on long-lived objects (c18_hist.py)
+    import c18_hist
+    c18_hist.run_histories(ctx, by_name)
+    c18_hist.run_call_sequences(ctx, by_name)
+
     v.coverage["distinct_nontrivial"] = len(nontrivial)
     v.coverage["rule"] = (
         "schemas of the theorem's family (fields str/int/float/bool with optional default, list, List, List[T] nested, "
@@ -1146,6 +1166,12 @@ def replay(rep):
         return impl_infer(stable_partition(r["headers"], probe_by_field_name())) == impl_infer(r["headers"])
     if fn == "permutation":
         return sort_fields(impl_infer(r["headers"])) == sort_fields(impl_infer(r["perm"]))
+    if fn == "history":
+        import c18_hist
+        return c18_hist.replay_history(r)
+    if fn == "calls":
+        import c18_hist
+        return c18_hist.replay_calls(r)
     if fn == "repeat":
         return impl_infer(r["headers"]) == impl_infer(r["headers"])
     return True
